@@ -70,16 +70,16 @@ func (ch *Channel) Start() {
 
 			ch.subscribersRWMut.RLock()
 
+			// Messages are written one after the other, in the order they were published:
+			// writing each message from its own goroutine lets a later message overtake an earlier one.
 			for _, conn := range ch.subscribers {
-				go func(conn *resp.Conn) {
-					if err := conn.WriteArray([]resp.Value{
-						resp.StringValue("message"),
-						resp.StringValue(ch.name),
-						resp.StringValue(message),
-					}); err != nil {
-						log.Println(err)
-					}
-				}(conn)
+				if err := conn.WriteArray([]resp.Value{
+					resp.StringValue("message"),
+					resp.StringValue(ch.name),
+					resp.StringValue(message),
+				}); err != nil {
+					log.Println(err)
+				}
 			}
 
 			ch.subscribersRWMut.RUnlock()
